@@ -22,8 +22,35 @@ def run_all(verif, repo, cache_dir):
             return json.load(f)
     work = os.path.join(verif, ".work")
     os.makedirs(work, exist_ok=True)
-    lock = open(os.path.join(work, ".witness.lock"), "w")
-    fcntl.flock(lock, fcntl.LOCK_EX)
+    # one run per tree: checks of the same tree wait for the first one's result
+    os.makedirs(cache_dir, exist_ok=True)
+    tree_lock = open(os.path.join(cache_dir, ".witness.lock"), "w")
+    fcntl.flock(tree_lock, fcntl.LOCK_EX)
+    try:
+        return _run_all_locked(verif, repo, cache_dir, out_file, work)
+    finally:
+        fcntl.flock(tree_lock, fcntl.LOCK_UN)
+        tree_lock.close()
+
+
+def _run_all_locked(verif, repo, cache_dir, out_file, work):
+    if os.path.exists(out_file):
+        with open(out_file) as f:
+            return json.load(f)
+    # a few build slots: doc-test runs of different trees proceed in parallel, runs of more trees than slots queue
+    nslots = max(1, min(6, (os.cpu_count() or 2) // 2))
+    lock = None
+    for i in range(nslots):
+        f_ = open(os.path.join(work, ".witness.%d.lock" % i), "w")
+        try:
+            fcntl.flock(f_, fcntl.LOCK_EX | fcntl.LOCK_NB)
+            lock = f_
+            break
+        except OSError:
+            f_.close()
+    if lock is None:
+        lock = open(os.path.join(work, ".witness.%d.lock" % (os.getpid() % nslots)), "w")
+        fcntl.flock(lock, fcntl.LOCK_EX)
     try:
         if os.path.exists(out_file):
             with open(out_file) as f:
